@@ -1746,6 +1746,12 @@ func (n *node) spawn(factory gen.ProcessFactory, options gen.ProcessOptionsExtra
 	if options.LinkParent {
 		n.targetManager.AddLink(p.pid, p.parent)
 	}
+	if options.LinkChild && p.parent != n.corePID {
+		// the parent's link must exist before the child can run: a child
+		// that terminated right after its start had its relations drained
+		// before the parent added the link, and the parent was never told
+		n.targetManager.AddLink(p.parent, p.pid)
+	}
 
 	// register process and switch it to the sleep state
 	p.state = int32(gen.ProcessStateSleep)
